@@ -600,13 +600,17 @@ class atom(boolean.AndRestriction):
         # If one of us is an exact match we intersect if the other matches it:
         if self.op == "=":
             if other.op == "=*":
-                return self.fullver.startswith(other.fullver)
+                return cpv.ver_glob_match(
+                    other.version, other.revision, self.version, self.revision
+                )
             return restricts.VersionMatch(
                 other.op, other.version, other.revision
             ).match(self)
         if other.op == "=":
             if self.op == "=*":
-                return other.fullver.startswith(self.fullver)
+                return cpv.ver_glob_match(
+                    self.version, self.revision, other.version, other.revision
+                )
             return restricts.VersionMatch(self.op, self.version, self.revision).match(
                 other
             )
@@ -616,18 +620,26 @@ class atom(boolean.AndRestriction):
         if self.op == other.op == "~":
             return cpv.ver_cmp(self.version, None, other.version, None) == 0
 
-        # If we are both glob matches we match if one of us matches the other.
+        # If we are both glob matches we match if one of us matches the
+        # other's own version.
         if self.op == other.op == "=*":
-            return self.fullver.startswith(other.fullver) or other.fullver.startswith(
-                self.fullver
+            return cpv.ver_glob_match(
+                other.version, other.revision, self.version, self.revision
+            ) or cpv.ver_glob_match(
+                self.version, self.revision, other.version, other.revision
             )
 
         # If one of us is a glob match and the other a ~ we match if the glob
-        # matches the ~ (ignoring a revision on the glob):
+        # matches the ~'s version (taken at the revision of the glob, since
+        # the ~ accepts any revision):
         if self.op == "=*" and other.op == "~":
-            return other.fullver.startswith(self.version)
+            return cpv.ver_glob_match(
+                self.version, self.revision, other.version, self.revision
+            )
         if other.op == "=*" and self.op == "~":
-            return self.fullver.startswith(other.version)
+            return cpv.ver_glob_match(
+                other.version, other.revision, self.version, other.revision
+            )
 
         # If we get here at least one of us is a <, <=, > or >=:
         if self.op in ("<", "<=", ">", ">="):
@@ -671,36 +683,23 @@ class atom(boolean.AndRestriction):
                 other
             ):
                 return True
-            if "<" in ranged.op:
-                # Remaining cases where this intersects: there is a
-                # package smaller than ranged.fullver and
-                # other.fullver that they both match.
+            # Remaining cases where this intersects: there is a package
+            # other than other's own version that they both match.
 
-                # If other.revision is not None or 0 then other does not match
-                # anything smaller than its own fullver:
-                if other.revision:
-                    return False
+            # With a (non zero) revision other matches nothing but its
+            # own version:
+            if other.revision != 0:
+                return False
 
-                # If other.revision is None or 0 then we can always
-                # construct a package smaller than other.fullver by
-                # tagging e.g. an _alpha1 on, since
-                # cat/pkg_beta2_alpha1_alpha1 is a valid version.
-                # (Yes, really. Try it if you don't believe me.)
-                # If and only if other also matches ranged then
-                # ranged will also match one of those smaller packages.
-                # XXX (I think, need to try harder to verify this.)
-                return ranged.fullver.startswith(other.version)
-            else:
-                # Remaining cases where this intersects: there is a
-                # package greater than ranged.fullver and
-                # other.fullver that they both match.
-
-                # We can always construct a package greater than
-                # other.fullver by adding a digit to it.
-                # If and only if other also matches ranged then
-                # ranged will match such a larger package
-                # XXX (I think, need to try harder to verify this.)
-                return ranged.fullver.startswith(other.version)
+            # Otherwise other matches every version that continues its own
+            # on a component boundary, and those are contiguous in version
+            # order. We can always construct a smaller one by tagging an
+            # _alpha on (cat/pkg-1_beta2_alpha_alpha is a valid version) and
+            # a greater one by bumping the revision. So ranged reaches into
+            # them if and only if other also matches ranged's version: then
+            # that version with an _alpha tagged on (for < and <=), or with
+            # a higher revision (for > and >=), is matched by both.
+            return cpv.ver_glob_match(other.version, None, ranged.version, None)
 
         # Handled all possible ops.
         raise NotImplementedError(
